@@ -68,9 +68,10 @@ def emit_item(t):
             e = f"de::<{lt.rs()}>(l)"
             args.append(f"{ln}: {e}" if named else e)
             ctor = f"{init} {{ {', '.join(args)} }}" if named else f"{init}({', '.join(args)})"
-            dflt = f"D::Default => <Self as DynDefault>::dyn_default(bytes)," if t.has_default else ""
+            dflt = f"D::Def(_) => <Self as DynDefault>::dyn_default(bytes)," if t.has_default else ""
             o.append(f"impl Editable for {t.name} {{}}")
-            o.append(f"impl DynTarget for {t.name} {{ unsafe fn dyn_emplace<'a>(d: &D, bytes: &'a mut [u8]) -> Result<&'a mut Self, Error> {{ match d {{ D::Struct(f, l) => {{ let _ = f; {ctor}.emplace_unchecked(bytes) }} {dflt} _ => panic!(\"harness: bad initialiser for {t.name}\") }} }} }}")
+            hooks = "default_hooks!();" if t.has_default else ""
+            o.append(f"impl DynTarget for {t.name} {{ {hooks} unsafe fn dyn_emplace<'a>(d: &D, bytes: &'a mut [u8]) -> Result<&'a mut Self, Error> {{ match d {{ D::Struct(f, l) => {{ let _ = f; {ctor}.emplace_unchecked(bytes) }} {dflt} _ => panic!(\"harness: bad initialiser for {t.name}\") }} }} }}")
     else:
         vs = []
         for i, (vn, k, fs) in enumerate(t.variants):
@@ -123,9 +124,10 @@ def emit_item(t):
                     args.append(f"{n}: {e}" if k == "named" else e)
                 ctor = f"{init} {{ {', '.join(args)} }}" if k == "named" else f"{init}({', '.join(args)})"
                 arms.append(f"{i} => {ctor}.emplace_unchecked(bytes),")
-            dflt = f"D::Default => <Self as DynDefault>::dyn_default(bytes)," if t.has_default else ""
+            dflt = f"D::Def(_) => <Self as DynDefault>::dyn_default(bytes)," if t.has_default else ""
             o.append(f"impl Editable for {t.name} {{}}")
-            o.append(f"impl DynTarget for {t.name} {{ unsafe fn dyn_emplace<'a>(d: &D, bytes: &'a mut [u8]) -> Result<&'a mut Self, Error> {{ match d {{ D::Enum(i, f, l) => {{ let _ = (f, l); match i {{ {' '.join(arms)} _ => panic!(\"harness: bad variant\") }} }} {dflt} _ => panic!(\"harness: bad initialiser for {t.name}\") }} }} }}")
+            hooks = "default_hooks!();" if t.has_default else ""
+            o.append(f"impl DynTarget for {t.name} {{ {hooks} unsafe fn dyn_emplace<'a>(d: &D, bytes: &'a mut [u8]) -> Result<&'a mut Self, Error> {{ match d {{ D::Enum(i, f, l) => {{ let _ = (f, l); match i {{ {' '.join(arms)} _ => panic!(\"harness: bad variant\") }} }} {dflt} _ => panic!(\"harness: bad initialiser for {t.name}\") }} }} }}")
     return "\n".join(o)
 
 def flags(t):
@@ -148,11 +150,12 @@ def emit(catalog):
     for t in catalog:
         d = t.desc()
         dflt = f"Some(default_fn::<{t.rs()}>)" if t.has_default else "None"
+        wdflt = f"Some(wrap_default_fn::<{t.rs()}>)" if t.has_default else "None"
         nm = t.rs().replace('"', "'")
         def is_clone(e):
             return isinstance(e, (Prim, BoolT)) or (isinstance(e, Arr) and is_clone(e.t))
         cl = f"Some(vec_clone_ops::<{t.t.rs()}, {t.l.rs()}>)" if isinstance(t, VecT) and is_clone(t.t) else "None"
-        out.append(f"  Box::new(Ops::<{t.rs()}> {{ name: \"{nm}\", desc: \"{d}\", flags: \"{flags(t)}\", default: {dflt}, clone_ops: {cl}, _p: PhantomData }}),")
+        out.append(f"  Box::new(Ops::<{t.rs()}> {{ name: \"{nm}\", desc: \"{d}\", flags: \"{flags(t)}\", default: {dflt}, wrap_default: {wdflt}, clone_ops: {cl}, _p: PhantomData }}),")
     out.append("] }")
     out.append("pub fn defaults() -> Vec<Option<&'static str>> { vec![")
     for t in catalog:
